@@ -1,5 +1,10 @@
+mod catalog;
+mod drip;
+mod dripcase;
 mod engine;
+mod gens;
 mod props;
+mod refmodel;
 mod ring;
 
 use engine::{RunOpts, Tier, replay_property, run_property};
@@ -14,6 +19,7 @@ macro_rules! dispatch {
         match $id {
             "C01" => $f(&props::c01::C01, $($arg),*),
             "C02" => $f(&props::c02::C02, $($arg),*),
+            "C08" => $f(&props::c08::C08, $($arg),*),
             _ => { eprintln!("unknown property {}", $id); 2 }
         }
     };
